@@ -852,7 +852,7 @@ func c20Sig(r *fw.Run, p *fw.Program) {
 			if c, ok := ins.(*ssa.Call); ok && fw.IsBuiltinCall(c, "close") {
 				if u, ok := c.Common().Args[0].(*ssa.UnOp); ok {
 					if fa, ok := u.X.(*ssa.FieldAddr); ok {
-						if mc := fieldChan[fieldNameOf(fa.X.Type(), fa.Field)]; mc != nil {
+						if mc := fieldChan[fieldNameOf(fa.X.Type(), fa.Field)]; mc != nil && mc != intChan {
 							closeChan, cc = mc, c
 						}
 					}
@@ -872,7 +872,9 @@ func c20Sig(r *fw.Run, p *fw.Program) {
 	// Notify
 	var sigChan *ssa.MakeChan
 	nNotify := 0
-	fw.EachInstr(g, func(ins ssa.Instruction) {
+	// the subscription may be made by the goroutine itself or by newStandardOS before it starts it
+	notifyIn := func(f func(ssa.Instruction)) { fw.EachInstr(nso, f); fw.EachInstr(g, f) }
+	notifyIn(func(ins ssa.Instruction) {
 		c, ok := ins.(*ssa.Call)
 		if !ok || c.Common().StaticCallee() == nil || c.Common().StaticCallee().String() != "os/signal.Notify" {
 			return
@@ -904,7 +906,7 @@ func c20Sig(r *fw.Run, p *fw.Program) {
 			"signal.Notify must deliver os.Interrupt to a buffered channel (package signal does not block sending: an unbuffered channel drops interrupts)")
 	})
 	if nNotify == 0 {
-		ru.Fail("bridge:signal.Notify", p.Rel(g.Pos()), "the bridge goroutine does not subscribe to os.Interrupt")
+		ru.Fail("bridge:signal.Notify", p.Rel(g.Pos()), "neither newStandardOS nor the bridge goroutine subscribes to os.Interrupt")
 	}
 	// selects and sends
 	isChan := func(v ssa.Value, mc *ssa.MakeChan) bool { return mc != nil && fw.C20Resolve(v) == ssa.Value(mc) }
